@@ -3,6 +3,8 @@
 VERUS_UNITS = {
     # name: template, properties served, rlimit
     'sketch': dict(template='contracts/sketch.rs', props=['C14', 'C08', 'C13'], rlimit=30),
+    'config': dict(template='contracts/config.rs', props=['C17', 'C05', 'C06', 'C08'], rlimit=30),
+    'sync': dict(template='contracts/sync.rs', props=['C01', 'C03', 'C04', 'C05', 'C06', 'C07', 'C08', 'C10', 'C17'], rlimit=30),
     'unsync': dict(template='contracts/unsync.rs', props=['C01', 'C03', 'C04', 'C05', 'C06', 'C07', 'C08', 'C10', 'C11', 'C12', 'C13', 'C14', 'C15', 'C17'], rlimit=50),
 }
 
@@ -48,7 +50,6 @@ NOT_APPLICABLE = {
     'C02': 'quantifies over thread schedules of DashMap shard locks and crossbeam channels: Kani has no thread model and the code uses none of the permission types Verus needs; no function contract can express or decide it',
     'C09': 'deadlock / livelock freedom and progress of a busy-wait loop under thread schedules: a liveness property over schedules, outside function contracts (termination of the sequential loops is reported under C08)',
     'C16': 'exactly-once iteration is the contract of std HashMap / dashmap iterators (dependencies, assumed not verified) and of schedules; the only repository code on that path, the expiry filter is_expired_entry, is decided under C05/C06',
-    'C17': 'builder / policy contracts not wired yet in this revision',
 }
 
 _UNS = 'single-threaded cache (src/unsync/cache.rs) only; the concurrent cache mutates shared state through &self (atomics, Mutex, DashMap), which neither back end can frame: not covered. '
@@ -91,6 +92,9 @@ CLAIMS = {
     'C14': dict(technique='Verus contracts on the verbatim FrequencySketch functions (bit-vector lemmas) + cache-level frame clauses',
                 text='every function of frequency_sketch.rs verified against nibble-level postconditions for all tables and hashes; get proved to record exactly once, every other operation never',
                 note='assumes std specs of count_ones/next_power_of_two/pow/into_boxed_slice; sketch table <= 2^27 words; ' + _ENV),
+    'C17': dict(technique='Verus pass-through contracts on builders, Policy, with_everything and policy(); Kani complete proofs of the 1000-year guard (both directions) and of weigh',
+                text='every builder setter is proved to set exactly its knob and keep the others, build/build_with_hasher to hand the five knobs unchanged to with_everything, with_everything (unsync, real text) to store them and start empty whatever initial_capacity is, policy() to report the stored values; ensure_expirations_or_panic returns iff both durations <= 1000 years (all Durations); weigh(None) == 1',
+                note='the concurrent cache constructor chain (BaseCache::new, Inner::new) is assumed, Inner::policy is proved; the weigher(..) setters (dyn Fn boxing) are rejected by Verus and not under contract; new(n) == builder().max_capacity(n).build() follows from identical postconditions up to the unspecified RandomState::default(). ' + _ENV),
     'C15': dict(technique='Verus frame contract: contains_key leaves exactly the state the housekeeping prefix leaves',
                 text='contains_key is proved to change nothing beyond the housekeeping every operation starts with: same estimator, same recency order of survivors, same timestamps',
                 note=_UNS + _ENV + ' iter takes &self (no interior mutability in the unsync cache).'),
